@@ -52,10 +52,13 @@ let form_of_letter = function
   | "F" -> Finite | "I" -> Infinite | "S" -> NaNSignaling | "N" -> NaN
   | s -> failwith ("form " ^ s)
 
+let illformed = ref false
 let dec_of_token (s : string) : dec option =
   if s = "_" then None else
   match String.split_on_char ':' s with
-  | [f; n; c; e] -> Some (mkDec (form_of_letter f) (n = "1") (z_of_dec_string e) (z_of_hex c))
+  | [f; n; c; e] ->
+      if String.length c > 0 && c.[0] = '-' then illformed := true;      (* a Decimal with a negative coefficient *)
+      Some (mkDec (form_of_letter f) (n = "1") (z_of_dec_string e) (z_of_hex c))
   | _ -> failwith ("dec " ^ s)
 let dec_req s = match dec_of_token s with Some d -> d | None -> mkDec Finite false Z0 Z0
 
@@ -126,7 +129,7 @@ let judge_arith (lhs : string list) (rhs : string list) (line : string) =
       | "C09" -> corr_full k o @ oracle_c09 k o
       | "C10" -> corr_full k o @ oracle_c10 k o
       | "C15" -> corr_full k o @ oracle_c15_ctx k o
-      | p -> failwith ("no arith judge for " ^ p) in
+      | _ -> corr_full k o in
     report line codes
   | _ -> report line [z_of_int 99]
 
@@ -370,7 +373,8 @@ let () =
          if String.length line > 4 && String.sub line 0 4 = "HANG" then begin
            incr total; incr fails; Printf.printf "FAIL 91 :: %s\n" line
          end else
-           (try judge_line line with Failure m -> incr fails; Printf.printf "FAIL 98 %s :: %s\n" m line)
+           (try judge_line line with Failure m -> incr fails; Printf.printf "FAIL 98 %s :: %s\n" m line);
+           if !illformed then begin illformed := false; incr fails; Printf.printf "FAIL 92 :: %s\n" line end
        end
      done
    with End_of_file -> ());
